@@ -52,13 +52,19 @@ def main(argv=None):
         return core.finish(run, t0, meta, 'extraction failed', ASSUMPTIONS)
     meta['digest'] = dg
     nfun = nrec = nunits = 0
-    for cfg in cfgs:
-        F = Facts(files[cfg], cfg)
-        nfun = max(nfun, len(F.funcs)); nrec = max(nrec, len(F.recs)); nunits = max(nunits, len(files[cfg]))
+    allF = {cfg: Facts(files[cfg], cfg) for cfg in cfgs}
+    run.facts = allF
+    for cfg in cfgs + ['*']:
+        if cfg != '*':
+            F = allF[cfg]
+            nfun = max(nfun, len(F.funcs)); nrec = max(nrec, len(F.recs)); nunits = max(nunits, len(files[cfg]))
+        else:
+            F = allF      # cross-configuration rules get the whole dict, once
         for r in rules:
-            if r['configs'] and cfg not in r['configs']: continue
+            if (cfg == '*') != bool(r.get('cross')): continue
+            if r['configs'] and cfg != '*' and cfg not in r['configs']: continue
             run.cur_rule, run.cur_cfg = r['id'], cfg
-            before = run.counts[(r['id'], cfg)]
+            before = sum(n_ for (rid_, c_), n_ in run.counts.items() if rid_ == r['id'])
             try:
                 r['fn'](run, F)
             except core.Broken as ex:
@@ -66,7 +72,7 @@ def main(argv=None):
             except Exception as ex:
                 run.broke('rule crashed: %s: %s' % (type(ex).__name__, ex))
                 traceback.print_exc()
-            n = run.counts[(r['id'], cfg)] - before
+            n = sum(n_ for (rid_, c_), n_ in run.counts.items() if rid_ == r['id']) - before
             if n < r['floor']:
                 run.broke('instance floor not met: %d < %d (the constructs this rule reasons about were not found)' % (n, r['floor']))
     meta.update(functions=nfun, records=nrec, units=nunits)
